@@ -76,3 +76,18 @@ pub proof fn lemma_handed_push(l: Seq<PacketSent>, x: PacketSent, n0: int)
     }
     assert(l.push(x)[l.len() as int] == x);
 }
+// the same record with the cache-flush bit off
+pub open spec fn flush_cleared(a: DnsRecord, b: DnsRecord) -> bool {
+    b == (DnsRecord { entry: DnsEntry { cache_flush: false, ..a.entry }, ..a })
+}
+// `for x in &mut vec` / `vec.iter_mut()`: the elements in order; each element's final value is what was written through its
+// item borrow
+#[verifier::external_body]
+pub fn vx_vec_iter_mut<'a, T>(v: &'a mut Vec<T>) -> (r: core::slice::IterMut<'a, T>)
+    ensures
+        vstd::std_specs::iter::IteratorSpec::obeys_prophetic_iter_laws(&r), vstd::std_specs::iter::IteratorSpec::decrease(&r) is Some,
+        vstd::std_specs::iter::IteratorSpec::remaining(&r).len() == old(v)@.len(),
+        forall|i: int| 0 <= i < old(v)@.len() ==> *(#[trigger] vstd::std_specs::iter::IteratorSpec::remaining(&r)[i]) == old(v)@[i],
+        final(v)@.len() == old(v)@.len(),
+        forall|i: int| 0 <= i < old(v)@.len() ==> #[trigger] final(v)@[i] == *final(vstd::std_specs::iter::IteratorSpec::remaining(&r)[i]),
+{ unimplemented!() }
